@@ -517,6 +517,12 @@ func (s *seqRunner) apply(op string) OpResult {
 		}
 		r.bulkRefreshChans = nil
 	}
+	// 5d. no in-flight load record survives an operation that has returned (same-goroutine executor) — C08
+	if !s.deferred {
+		if st := r.C.VerifStatus(); st.InFlightCalls != 0 {
+			s.fail("inflight-left", name, "after op %q returned, %d in-flight load records remain: a later Get/Refresh of such a key would wait forever", op, st.InFlightCalls)
+		}
+	}
 	// 6. sweep guarantee (C13)
 	if strings.HasPrefix(op, "cleanup") && s.cfg.Expiry != "" {
 		for kk, e := range m.m {
